@@ -1,21 +1,23 @@
 #!/bin/bash
 # tools/seedregress.sh [seed dirs...]: re-run the owning property's check against every kept seeded change (default: all of
-# /verif/seeded/*), each applied to a scratch worktree of /repo (never /repo itself). Prints one line per seed: caught / MISSED.
+# /verif/seeded/*), each applied to a scratch worktree of /repo (never /repo itself). The checks run from a snapshot of /verif
+# taken at the start, so that /verif can be edited meanwhile. Prints one line per seed: caught / MISSED.
 # A seed whose meta.json has "tier": "thorough" is run with the thorough tier.
 set -u
 export GOFLAGS=-mod=mod GOPROXY=off GOSUMDB=off GOTOOLCHAIN=local
-wt=/tmp/mut/REG
-git -C /repo worktree remove --force $wt 2>/dev/null
+wt=/tmp/mut/REG$$
+snap=$(mktemp -d /tmp/verif-snap-XXXX)
+rsync -a --exclude .git --exclude evidence --exclude replays /verif/ $snap/
 git -C /repo worktree add --detach $wt HEAD > /dev/null 2>&1 || exit 2
 out=$(mktemp -d /tmp/seedout-XXXX)
-seeds=("$@"); [ ${#seeds[@]} -eq 0 ] && seeds=($(ls /verif/seeded))
+seeds=("$@"); [ ${#seeds[@]} -eq 0 ] && seeds=($(ls $snap/seeded))
 for s in "${seeds[@]}"; do
-  d=/verif/seeded/$s; id=${s%%-*}
+  d=$snap/seeded/$s; id=${s%%-*}
   tier=$(python3 -c "import json;print(json.load(open('$d/meta.json')).get('tier','quick'))")
   (cd $wt && git checkout -q -- . && git clean -qfd && git apply $d/patch.diff) || { echo "$s patch does not apply"; continue; }
-  (cd /verif && VERIF_REPO=$wt VERIF_OUTDIR=$out ./check $id $tier > $out/$s.txt 2>&1); rc=$?
+  (cd $snap && VERIF_REPO=$wt VERIF_OUTDIR=$out ./check $id $tier > $out/$s.txt 2>&1); rc=$?
   n=$(grep -c "^VIOLATION property=$id " $out/$s.txt)
   if [ $rc -eq 1 ] && [ $n -gt 0 ]; then echo "$s caught ($tier, $n violation lines)"; else echo "$s MISSED rc=$rc ($tier) $(tail -2 $out/$s.txt | cut -c1-200 | tr '\n' ' ')"; cp $out/$s.txt /tmp/seedregress_$s.txt; fi
 done
 git -C /repo worktree remove --force $wt
-rm -rf $out
+rm -rf $out $snap
